@@ -1335,6 +1335,24 @@ fn fixed_cases() -> Vec<Program> {
         ],
         &["cx0"],
     ));
+    // 7: `pkg` is an ordinary name: a child module of the root called `pkg` shadows the package root there
+    out.push(mk(
+        "a module named pkg below the root: pkg.… is looked up like any other name",
+        vec![],
+        vec![
+            ModD { ident: PKG, parent: None, items: vec![cx(c0, 900, Block { imports: vec![], stmts: vec![
+                pr(0, PKind::Fn, &[PKG, aa, ff]),
+                pr(1, PKind::Fn, &[aa, ff]),
+            ] })] },
+            ModD { ident: aa, parent: Some(0), items: vec![f(ff, 101), cx(c0 + 1, 901, Block { imports: vec![], stmts: vec![
+                pr(2, PKind::Fn, &[PKG, aa, ff]),
+                pr(3, PKind::Fn, &[SUPER, PKG, aa, ff]),
+            ] })] },
+            ModD { ident: PKG, parent: Some(0), items: vec![] },
+            ModD { ident: aa, parent: Some(2), items: vec![f(ff, 102)] },
+        ],
+        &["cx0", "cx1"],
+    ));
     out
 }
 
